@@ -228,6 +228,10 @@ func registerVX() {
 			if m.query(c) == smt.Unsat {
 				m.abort(abInfeasible, "")
 			}
+			if m.isAssumption == nil {
+				m.isAssumption = map[*smt.Term]bool{}
+			}
+			m.isAssumption[c] = true
 			m.assume(c)
 		}
 		return nil
@@ -694,13 +698,7 @@ func registerStd() {
 	I["math.Pow10"] = func(m *Machine, fr *frame, args []Value) Value {
 		t := args[0].(*smt.Term)
 		if !t.IsConst() {
-			// fork over the table range; outside: havoc
-			for e := int64(-3); e <= 19; e++ {
-				if m.Branch(m.C.Eq(t, m.i64(e))) {
-					return Float{OK: true, F: math.Pow10(int(e)), W: 64}
-				}
-			}
-			return Float{W: 64}
+			return Float{W: 64, Pow10Of: t}
 		}
 		return Float{OK: true, F: math.Pow10(int(t.Signed())), W: 64}
 	}
